@@ -66,8 +66,8 @@ ALL = {
             "alloc;free is the identity; resize keeps every surviving page's state, frees exactly the added pages and re-establishes R. "
             "Region capacity 16 (lengths 6, 11, 13, 16 quick; all 1..16 and capacity 128 thorough). Region tracker: one step of "
             "mark_free / mark_full / find_free from any tracker state changes / reads exactly the documented bits, which together with "
-            "the allocator steps keeps the tracker optimistic (never full for a region with a suitable block) by composition; dropped "
-            "regions are marked full at every order. The glue inside allocate_helper_retry / free_helper, alloc_lowest and the "
+            "the allocator steps keeps the tracker optimistic (never full for a region with a suitable block) by composition. The glue inside "
+            "allocate_helper_retry / free_helper, Allocators::resize_to, alloc_lowest and the "
             "allocator-level codec did not close and are NOT claimed (DESIGN.md 9.1).",
             NOTE_COMMON + " Invariant R is assumed of the pre-state and asserted of the post-state; `new` establishes it."),
     "C15": ("DESIGN.md 4 C15, 9.3",
